@@ -277,6 +277,13 @@ func (u *Universe) implPred(it *types.Interface, name string) string {
 // Called when the final query is assembled (all tags known by then).
 func (u *Universe) implFacts() []string {
 	var out []string
+	// reflect.Kind of every known dynamic type
+	if u.globalSet["(declare-fun kindof (Int) Int)"] {
+		for i, t := range u.tagTypes {
+			out = append(out, fmt.Sprintf("(assert (= (kindof %d) %d))", i+1, reflectKind(t)))
+		}
+		out = append(out, "(assert (= (kindof 0) 0))")
+	}
 	var names []string
 	for p := range u.ifaces {
 		names = append(names, p)
@@ -394,7 +401,7 @@ func declaredSym(g string) string {
 	return ""
 }
 
-var assertSymRe = regexp.MustCompile(`(lit\d+|impl_[A-Za-z0-9_.]+|sf_[A-Za-z0-9_]+|unbox_[A-Za-z0-9_.]+)`)
+var assertSymRe = regexp.MustCompile(`(lit\d+|impl_[A-Za-z0-9_.]+|sf_[A-Za-z0-9_]+|unbox_[A-Za-z0-9_.]+|kindof)`)
 
 func assertSym(g string) string {
 	return assertSymRe.FindString(g)
@@ -462,4 +469,66 @@ func (u *Universe) arrKey(elem types.Type) string {
 		ts = "any"
 	}
 	return "A|" + u.sortOf(elem) + "|" + sanitize(ts)
+}
+
+// reflectKind returns the reflect.Kind number of a Go type.
+func reflectKind(t types.Type) int {
+	switch tt := t.Underlying().(type) {
+	case *types.Basic:
+		switch tt.Kind() {
+		case types.Bool:
+			return 1
+		case types.Int:
+			return 2
+		case types.Int8:
+			return 3
+		case types.Int16:
+			return 4
+		case types.Int32:
+			return 5
+		case types.Int64:
+			return 6
+		case types.Uint:
+			return 7
+		case types.Uint8:
+			return 8
+		case types.Uint16:
+			return 9
+		case types.Uint32:
+			return 10
+		case types.Uint64:
+			return 11
+		case types.Uintptr:
+			return 12
+		case types.Float32:
+			return 13
+		case types.Float64:
+			return 14
+		case types.Complex64:
+			return 15
+		case types.Complex128:
+			return 16
+		case types.String:
+			return 24
+		case types.UnsafePointer:
+			return 26
+		}
+	case *types.Array:
+		return 17
+	case *types.Chan:
+		return 18
+	case *types.Signature:
+		return 19
+	case *types.Interface:
+		return 20
+	case *types.Map:
+		return 21
+	case *types.Pointer:
+		return 22
+	case *types.Slice:
+		return 23
+	case *types.Struct:
+		return 25
+	}
+	return 0
 }
